@@ -329,9 +329,8 @@ func (s *Scen) check(x *vsched.Exec) (string, string) {
 			}
 			return out, fmt.Sprintf("request admitted (Open->HalfOpen) %d ms after the breaker opened, retry timeout is %d ms%s", w.at-openedAt, retry, aba)
 		}
-		// (2b) every transition has its cause: only a completion opens a closed breaker, only a failing
-		// one re-opens a half-open breaker, only a successful one closes it, only an arriving request
-		// moves it to half-open; a request through the API (which completes without error) re-opens a
+		// (2b) every transition has its cause: only a completion opens a closed or re-opens a half-open
+		// breaker, only a successful one closes it, only an arriving request moves it to half-open; a request through the API (which completes without error) re-opens a
 		// half-open breaker only when it was the probe and a later check blocked it
 		if w.thread >= 0 && w.thread < len(s.Progs) && w.step < len(s.Progs[w.thread]) {
 			op := s.Progs[w.thread][w.step]
@@ -346,7 +345,10 @@ func (s *Scen) check(x *vsched.Exec) (string, string) {
 				// success; statistics of the previous round not cleared yet by a concurrent closer)
 				ok = op == opFail || op == opOK || op == opEntr
 			case w.next == stOpen && w.prev == stHalfOpen:
-				ok = op == opFail || (op == opEntr && s.Second)
+				// a completion that began while the breaker was closed and finds its window at the
+				// threshold re-reads the state and re-opens a breaker that has become half-open meanwhile
+				// (the code's "case HalfOpen" under "current state is CLOSED"): any completion qualifies
+				ok = op == opFail || op == opOK || (op == opEntr && s.Second)
 			}
 			if !ok {
 				return out, fmt.Sprintf("transition %s->%s performed while thread %d was in step %q, which cannot cause it (transitions %s)", name(w.prev), stName[w.next], w.thread, op, fmtW(s.writes))
